@@ -67,7 +67,8 @@ def crash_cases(rng, tier):
         # dimension handles need an array that has dimensions at the cut; decided per cut from the prefix text
         for k in range(0, len(ops) + 1):
             pre = ops[:k]
-            l = ['cr_fork', 'cr_in fopen ow %s' % compr] + ['cr_in ' + o for o in pre]
+            # (now and then the path the library is given is a symbolic link to the file)
+            l = (['cr_linkpath'] if rng.random() < 0.15 else []) + ['cr_fork', 'cr_in fopen ow %s' % compr] + ['cr_in ' + o for o in pre]
             # handles of every kind are alive in the slots; add copies / views / dimension handles for what exists at this cut
             made = [o.split() for o in pre if o.startswith('mk ')]
             arrays = [m[1] for m in made if m[2] == 'A']
